@@ -56,6 +56,39 @@ void log_tls_get_verification_failure_reason(X509_STORE_CTX *store_ctx, char *bu
     buf[capacity - 1] = '\0';
 }
 
+/* TRUSTED(xcm slist.c) the list of expected peer names, seen through ONE arbitrary position: ONE list is modelled (the
+ * socket's valid_peer_names); it has xv_slist_n elements, the element at position xv_hk (never assigned, env/ssl_env.h)
+ * is xv_slist_name_k, every other element is some non-NULL string.  Facts proved about position xv_hk hold for all. */
+size_t xv_slist_n; const char *xv_slist_name_k;
+long xv_slist_destroy_calls; const struct slist *xv_slist_destroyed;
+#define XV_SLIST_N_MAX (1UL << 40)
+size_t slist_len(const struct slist *slist)
+{
+    __CPROVER_assert(slist != NULL, "slist_len: list given");
+    return xv_slist_n;
+}
+const char *slist_get(const struct slist *slist, size_t index)
+{
+    __CPROVER_assert(slist != NULL && index < xv_slist_n, "slist_get: index inside the list");
+    if (xv_hk >= 0 && index == (size_t)xv_hk)
+        return xv_slist_name_k;
+    const char *p = (const char *)nondet_size_t();
+    __CPROVER_assume(p != NULL);
+    return p;
+}
+void slist_destroy(struct slist *slist)
+{
+    if (slist != NULL) {
+        xv_slist_destroy_calls++;
+        xv_slist_destroyed = slist;
+    }
+}
+static inline void xv_btls_havoc(void)
+{
+    xv_slist_n = nondet_size_t(); xv_slist_name_k = (const char *)nondet_size_t();
+    xv_slist_destroy_calls = nondet_long(); xv_slist_destroyed = (const struct slist *)nondet_size_t();
+}
+
 /* ================================================================================================================ */
 /* C09: configuration of OpenSSL                                                                                     */
 /* ================================================================================================================ */
@@ -116,6 +149,17 @@ __CPROVER_ensures(xv_x509_refs == __CPROVER_old(xv_x509_refs))
         (BT_STATE(s) == __CPROVER_old(BT_STATE(s)) && BT(s)->conn.ssl_wants == XCM_SO_RECEIVABLE && BT(s)->conn.badness_reason == __CPROVER_old(BT(s)->conn.badness_reason))) && \
     ((xv_ssl_err == SSL_ERROR_SYSCALL && xv_err_queue == 0 && ((en) == EPIPE || (en) == 0)) ==> BT_EV_CLOSED(s)) && \
     ((xv_ssl_err == SSL_ERROR_SYSCALL && xv_err_queue == 0 && (en) != EPIPE && (en) != 0 && (en) != EINPROGRESS) ==> BT_EV_BAD(s, en)))
+/* the same mapping for a data call: the state the failed call was made in is ready (possibly reached in the same API call) */
+#define BT_EV_KEEP(s, condition, w) (BT_STATE(s) == conn_state_ready && BT(s)->conn.ssl_condition == (condition) && BT(s)->conn.ssl_wants == (w))
+#define BT_EV_MAP_AFTER(s, condition, en) ( \
+    (xv_ssl_err == SSL_ERROR_WANT_READ ==> BT_EV_KEEP(s, condition, XCM_SO_RECEIVABLE)) && \
+    (xv_ssl_err == SSL_ERROR_WANT_WRITE ==> BT_EV_KEEP(s, condition, XCM_SO_SENDABLE)) && \
+    (xv_ssl_err == SSL_ERROR_ZERO_RETURN ==> BT_STATE(s) == conn_state_closed) && \
+    (xv_ssl_err == SSL_ERROR_SSL ==> BT_EV_BAD(s, EPROTO)) && \
+    ((xv_ssl_err == SSL_ERROR_SYSCALL && xv_err_queue != 0) ==> BT_EV_BAD(s, EPROTO)) && \
+    ((xv_ssl_err == SSL_ERROR_SYSCALL && xv_err_queue == 0 && (en) == EINPROGRESS) ==> (BT_STATE(s) == conn_state_ready && BT(s)->conn.ssl_wants == XCM_SO_RECEIVABLE)) && \
+    ((xv_ssl_err == SSL_ERROR_SYSCALL && xv_err_queue == 0 && ((en) == EPIPE || (en) == 0)) ==> BT_STATE(s) == conn_state_closed) && \
+    ((xv_ssl_err == SSL_ERROR_SYSCALL && xv_err_queue == 0 && (en) != EPIPE && (en) != 0 && (en) != EINPROGRESS) ==> BT_EV_BAD(s, en)))
 #define BT_ERR_CLASS_OK (xv_ssl_err == SSL_ERROR_SSL || xv_ssl_err == SSL_ERROR_WANT_READ || xv_ssl_err == SSL_ERROR_WANT_WRITE || \
                          xv_ssl_err == SSL_ERROR_SYSCALL || xv_ssl_err == SSL_ERROR_ZERO_RETURN)
 static void process_ssl_event(struct xcm_socket *s, int condition, int ssl_rc, int ssl_errno)
@@ -148,6 +192,8 @@ __CPROVER_ensures(__CPROVER_old(BT_STATE(s)) == conn_state_tls_handshaking \
 /* PO[C06] try_finish_tls_handshake.failure_mapping: a failed step: WANT_* => still handshaking (ssl_condition 0, ssl_wants says what to wait for), close_notify/EOF/EPIPE => closed, protocol error => bad(EPROTO), transport errno e => bad(e)
  */
 __CPROVER_ensures((BT_HS_ENTERED && xv_hs_ret < 1) ==> BT_EV_MAP(s, 0, xv_ssl_errno))
+/* PO[C06] try_finish_tls_handshake.closed_only_if_close_seen: the socket becomes closed only when the peer's close was seen (close_notify, or EOF/EPIPE from the transport) */
+__CPROVER_ensures((BT_STATE(s) == conn_state_closed && __CPROVER_old(BT_STATE(s)) != conn_state_closed) ==> xv_ssl_close_seen)
 /* PO[C06] try_finish_tls_handshake.terminal_sticks: closed and bad are absorbing, the stored errno is immutable */
 __CPROVER_ensures((__CPROVER_old(BT_STATE(s)) == conn_state_closed || __CPROVER_old(BT_STATE(s)) == conn_state_bad) ==> \
                   (BT_STATE(s) == __CPROVER_old(BT_STATE(s)) && BT(s)->conn.badness_reason == __CPROVER_old(BT(s)->conn.badness_reason)))
@@ -155,6 +201,167 @@ __CPROVER_ensures((__CPROVER_old(BT_STATE(s)) == conn_state_closed || __CPROVER_
 __CPROVER_ensures(xv_errno == __CPROVER_old(xv_errno))
 __CPROVER_ensures(BT_CONN_INV(s))
 __CPROVER_ensures(xv_x509_refs == __CPROVER_old(xv_x509_refs))
+;
+
+/* ---- enable_hostname_validation (tls.verify_peer_name) */
+/* representation invariant: a name list, when present, is not empty (set_peer_names_attr keeps NULL for an empty value,
+ * btls_connect appends the host name, inherit_tls_conf clones a non-empty list) */
+#define BT_NAMES_INV(s) (BT(s)->valid_peer_names != NULL ==> (xv_slist_n >= 1 && xv_slist_n < XV_SLIST_N_MAX && xv_slist_name_k != NULL))
+#define BT_HOSTVAL_UNTOUCHED (xv_x509_set_hostflags_calls == __CPROVER_old(xv_x509_set_hostflags_calls) && xv_x509_add_calls == __CPROVER_old(xv_x509_add_calls) && \
+                              xv_x509_host_resets == __CPROVER_old(xv_x509_host_resets) && xv_x509_nhosts == __CPROVER_old(xv_x509_nhosts))
+static int enable_hostname_validation(struct xcm_socket *s)
+__CPROVER_requires(BT_FRESH(s) && XV_SSL_GHOST_RANGE && BT_NAMES_INV(s))
+__CPROVER_assigns(xv_errno, XV_SSL_HOST_ASSIGNS)
+__CPROVER_ensures(__CPROVER_return_value == 0 || (__CPROVER_return_value == -1 && xv_errno == EINVAL))
+/* PO[C09] enable_hostname_validation.needs_auth_and_names: without tls.auth, or without any expected name, name verification cannot be enabled: EINVAL, OpenSSL untouched */
+__CPROVER_ensures((!BT(s)->tls_auth || BT(s)->valid_peer_names == NULL) ==> (__CPROVER_return_value == -1 && xv_errno == EINVAL && BT_HOSTVAL_UNTOUCHED))
+/* PO[C09] enable_hostname_validation.flags: on success the host flags of the socket's own SSL are exactly NO_WILDCARDS|ALWAYS_CHECK_SUBJECT */
+__CPROVER_ensures(__CPROVER_return_value == 0 ==> (xv_x509_hostflags == (X509_CHECK_FLAG_NO_WILDCARDS | X509_CHECK_FLAG_ALWAYS_CHECK_SUBJECT) && \
+                                                    xv_get0_param_ssl == BT(s)->conn.ssl && xv_x509_set_hostflags_calls == __CPROVER_old(xv_x509_set_hostflags_calls) + 1))
+/* PO[C09] enable_hostname_validation.every_name: on success OpenSSL's list of expected names was emptied and then received EVERY name of the socket's list, in order, and nothing else: same length, and (for the arbitrary position xv_hk) the same name */
+__CPROVER_ensures(__CPROVER_return_value == 0 ==> (xv_x509_nhosts == (long)xv_slist_n && xv_x509_nhosts >= 1 && \
+                                                    xv_x509_host_resets == __CPROVER_old(xv_x509_host_resets) + 1 && \
+                                                    xv_x509_add_calls == __CPROVER_old(xv_x509_add_calls) + (long)xv_slist_n && \
+                                                    ((xv_hk >= 0 && xv_hk < (long)xv_slist_n) ==> xv_x509_host_k == xv_slist_name_k)))
+/* PO[C09] enable_hostname_validation.no_partial_success: a name OpenSSL refuses makes the whole call fail */
+__CPROVER_ensures((BT(s)->tls_auth && BT(s)->valid_peer_names != NULL && __CPROVER_return_value == -1) ==> xv_x509_nhosts < (long)xv_slist_n)
+;
+
+/* ================================================================================================================ */
+/* C02/C06/C09: application data over SSL_write / SSL_read                                                           */
+/* ================================================================================================================ */
+/* The byte-stream interface of contracts/lower.h (what the framing transport tls ASSUMES of xcm_tp_socket_send/receive
+ * on its btls sub-socket) is ENFORCED here on btls_send/btls_receive, with the two ghost flags of that interface read
+ * through the abstraction function of the btls socket -- nothing in the real code could assign a ghost variable:
+ *      "the lower connection is dead"  (xv_lower_dead)  :=  conn.state in {closed, bad}
+ *      "end of stream was reported"    (xv_rx_eof)      :=  conn.state == closed
+ * BT_LOWER_SEND_ENSURES/BT_LOWER_RECV_ENSURES are LOWER_SEND_ENSURES/LOWER_RECV_ENSURES of contracts/lower.h with exactly
+ * that substitution (old values: __CPROVER_old of conn.state). */
+#define BT_OLD_STATE(s) __CPROVER_old(BT_STATE(s))
+#define BT_WAS_DEAD(s) (BT_OLD_STATE(s) == conn_state_closed || BT_OLD_STATE(s) == conn_state_bad)
+#define BT_GHOST_RANGE (xv_tx_off >= 0 && xv_tx_off < XV_OFF_MAX && xv_rx_off >= 0 && xv_rx_off < XV_OFF_MAX && xv_k >= 0 && xv_k < 2 * XV_OFF_MAX)
+#define BT_C1(s, c) (BCN(s, c) >= 0 && BCN(s, c) < (1L << 61))
+#define BT_CNT_RANGE(s) (BT_C1(s, to_app_bytes) && BT_C1(s, from_app_bytes) && BT_C1(s, to_lower_bytes) && BT_C1(s, from_lower_bytes) && \
+                         BT_C1(s, to_app_msgs) && BT_C1(s, from_app_msgs) && BT_C1(s, to_lower_msgs) && BT_C1(s, from_lower_msgs))
+#define BT_SAME(s, c) (BCN(s, c) == __CPROVER_old(BCN(s, c)))
+#define BT_CONN(s) (BT_FRESH(s) && BT_PROTO_FRESH(s))
+#define BT_SSL_UNTOUCHED (xv_hs_calls == __CPROVER_old(xv_hs_calls) && xv_sw_calls == __CPROVER_old(xv_sw_calls) && xv_sr_calls == __CPROVER_old(xv_sr_calls))
+/* the state in which application data was handed to OpenSSL: ready at entry, or made ready by this call's handshake step */
+#define BT_WAS_READY_FOR_DATA(s) (BT_OLD_STATE(s) == conn_state_ready || (BT_OLD_STATE(s) == conn_state_tls_handshaking && BT_HS_ENTERED && xv_hs_ret >= 1))
+
+#define BT_LOWER_SEND_ENSURES(s, rv, buf, len) ( \
+    ((rv) == -1 && xv_errno > 0 && xv_tx_off == __CPROVER_old(xv_tx_off) && \
+        xv_tx_k == __CPROVER_old(xv_tx_k) && xv_tx_k_set == __CPROVER_old(xv_tx_k_set) && \
+        (xv_errno != EAGAIN ==> BT_DEAD_STATE(s)) && (BT_WAS_DEAD(s) ==> xv_errno != EAGAIN)) || \
+    ((rv) >= 1 && (size_t)(rv) <= (len) && !BT_WAS_DEAD(s) && \
+        xv_tx_off == __CPROVER_old(xv_tx_off) + (rv) && \
+        (XV_IN_TX(__CPROVER_old(xv_tx_off), (rv)) \
+            ? (xv_tx_k_set && xv_tx_k == XV_U8(buf)[xv_k - __CPROVER_old(xv_tx_off)]) \
+            : (xv_tx_k == __CPROVER_old(xv_tx_k) && xv_tx_k_set == __CPROVER_old(xv_tx_k_set)))))
+#define BT_LOWER_RECV_ENSURES(s, rv, buf, capacity) ( \
+    ((rv) == -1 && xv_errno > 0 && xv_rx_off == __CPROVER_old(xv_rx_off) && ((BT_STATE(s) == conn_state_closed) == (BT_OLD_STATE(s) == conn_state_closed)) && \
+        (xv_errno != EAGAIN ==> BT_DEAD_STATE(s)) && (BT_WAS_DEAD(s) ==> xv_errno != EAGAIN)) || \
+    ((rv) == 0 && BT_STATE(s) == conn_state_closed && xv_rx_off == __CPROVER_old(xv_rx_off)) || \
+    ((rv) >= 1 && (size_t)(rv) <= (capacity) && BT_OLD_STATE(s) != conn_state_closed && BT_STATE(s) != conn_state_closed && \
+        xv_rx_off == __CPROVER_old(xv_rx_off) + (rv) && XV_RX_BYTES(buf, __CPROVER_old(xv_rx_off), (rv))))
+
+/* which lengths/capacities are explored: default = the range the framing layer uses (LOWER_SEND_REQUIRES/LOWER_RECV_REQUIRES);
+ * -DBT_API = everything xcm_send()/xcm_receive() pass through for a byte-stream socket: 0 and > INT_MAX included */
+#ifdef BT_API
+#define BT_LEN_OK(len) ((len) <= (1UL << 33))
+/* receive buffers: SSL_read's model stores up to INT_MAX arbitrary bytes; above BT_CAP_MAX that exhausts the solver's memory
+ * (is_fresh needs a bound anyway).  The API variant also explores the capacities whose low 32 bits, as an int, are negative
+ * or small: 2^31 .. 2^32 + BT_CAP_MAX */
+#define BT_CAP_OK(c) ((c) <= BT_CAP_MAX || ((c) >= (1UL << 31) && (c) < (1UL << 32)) || ((c) >= (1UL << 32) && (c) <= (1UL << 32) + BT_CAP_MAX))
+#else
+#define BT_LEN_OK(len) ((len) >= 1 && (len) <= 0x7ffff000UL)
+/* receive buffers above BT_CAP_MAX are not explored (2 * the largest frame the tls framing layer ever asks for) */
+#define BT_CAP_OK(c) ((c) >= 1 && (c) <= BT_CAP_MAX)
+#endif
+#define BT_CAP_MAX (1UL << 17)
+#define BT_BUFSZ(len) ((len) == 0 ? 1 : (len))
+
+static int btls_send(struct xcm_socket *__restrict s, const void *__restrict buf, size_t len)
+__CPROVER_requires(BT_CONN(s) && BT_LEN_OK(len))
+__CPROVER_requires(BT_PROTO(s) && BT_CONN_INV(s) && BT_CNT_RANGE(s) && XV_SSL_GHOST_RANGE && BT_GHOST_RANGE)
+__CPROVER_requires(__CPROVER_is_fresh(buf, BT_BUFSZ(len)))
+/* the frame: errno, the plaintext stream, the OpenSSL record, the connection state machine, the two send-side byte counters;
+ * NOT the message buffer, the receive-side stream and counters, the policy fields */
+__CPROVER_assigns(xv_errno, xv_tx_off, xv_tx_k, xv_tx_k_set, XV_SSL_HS_ASSIGNS, XV_SSL_VERDICT_ASSIGNS, XV_SSL_WRITE_ASSIGNS)
+__CPROVER_assigns(BT_STATE(s), BT(s)->conn.badness_reason, BT(s)->conn.ssl_condition, BT(s)->conn.ssl_wants, BCN(s, from_app_bytes), BCN(s, to_lower_bytes))
+/* PO[C02] btls_send.rv: -1, or the number of leading bytes accepted: 1..len for len > 0 */
+__CPROVER_ensures(__CPROVER_return_value == -1 || (__CPROVER_return_value >= 0 && (size_t)__CPROVER_return_value <= len && (len > 0 ==> __CPROVER_return_value >= 1)))
+/* PO[C09,C02] btls_send.data_only_when_ready: SSL_write is entered at most once, ONLY in state ready (verdict satisfied the policy), on the socket's own SSL, with exactly (buf, len) */
+__CPROVER_ensures(xv_sw_calls != __CPROVER_old(xv_sw_calls) ==> (xv_sw_calls == __CPROVER_old(xv_sw_calls) + 1 && BT_WAS_READY_FOR_DATA(s) && xv_ssl_hs_done && BT_VERDICT_OK(s) && \
+                                                                 xv_sw_ssl == BT(s)->conn.ssl && xv_sw_buf == buf && xv_sw_num >= 0 && (size_t)xv_sw_num == len))
+/* PO[C06] btls_send.bad_sticks: a bad socket reports its stored errno, stays bad, and OpenSSL is not entered */
+__CPROVER_ensures(BT_OLD_STATE(s) == conn_state_bad ==> (__CPROVER_return_value == -1 && xv_errno == __CPROVER_old(BT(s)->conn.badness_reason) && BT_STATE(s) == conn_state_bad && \
+                                                         BT(s)->conn.badness_reason == __CPROVER_old(BT(s)->conn.badness_reason) && BT_SSL_UNTOUCHED))
+/* PO[C06] btls_send.closed_is_epipe: once the close has been seen send fails with EPIPE, stays closed, OpenSSL is not entered */
+__CPROVER_ensures(BT_OLD_STATE(s) == conn_state_closed ==> (__CPROVER_return_value == -1 && xv_errno == EPIPE && BT_STATE(s) == conn_state_closed && BT_SSL_UNTOUCHED))
+/* PO[C06] btls_send.discovering_call_reports: the call whose handshake step discovers the failure (protocol error, policy not met, reset, close) reports it: bad => the stored errno, closed => EPIPE -- not EAGAIN */
+__CPROVER_ensures((BT_HS_ENTERED && BT_DEAD_STATE(s)) ==> (__CPROVER_return_value == -1 && xv_errno == (BT_STATE(s) == conn_state_bad ? BT(s)->conn.badness_reason : EPIPE)))
+/* PO[C09] btls_send.not_ready_is_eagain: while the handshake is unfinished (or the socket never connected) nothing is accepted: EAGAIN, no SSL_write */
+__CPROVER_ensures((BT_STATE(s) != conn_state_ready && !BT_DEAD_STATE(s)) ==> (__CPROVER_return_value == -1 && xv_errno == EAGAIN && xv_sw_calls == __CPROVER_old(xv_sw_calls)))
+/* PO[C02,C06] btls_send.stream: the lower-layer send contract: rv >= 1: exactly buf[0..rv) was appended to the plaintext stream; -1: nothing was, errno > 0, anything but EAGAIN means the connection is terminal */
+__CPROVER_ensures(len >= 1 ==> BT_LOWER_SEND_ENSURES(s, __CPROVER_return_value, buf, len))
+/* PO[C02] btls_send.zero_length: nothing to send on a ready socket: 0, OpenSSL is not asked to write */
+__CPROVER_ensures((len == 0 && __CPROVER_return_value != -1) ==> (__CPROVER_return_value == 0 && BT_STATE(s) == conn_state_ready && xv_sw_calls == __CPROVER_old(xv_sw_calls) && xv_tx_off == __CPROVER_old(xv_tx_off)))
+/* PO[C02] btls_send.rv_is_openssl_count: the count reported is the count OpenSSL accepted */
+__CPROVER_ensures(__CPROVER_return_value >= 1 ==> (xv_sw_calls == __CPROVER_old(xv_sw_calls) + 1 && __CPROVER_return_value == xv_sw_ret))
+/* PO[C06] btls_send.failure_mapping: a refused SSL_write: WANT_READ/WANT_WRITE => EAGAIN (state unchanged, what to wait for recorded); 0 / close_notify / EOF / EPIPE => closed, EPIPE; protocol error => bad, EPROTO; transport errno e => bad, e */
+__CPROVER_ensures((xv_sw_calls != __CPROVER_old(xv_sw_calls) && xv_sw_ret <= 0) ==> (__CPROVER_return_value == -1 && \
+        (xv_sw_ret == 0 ? (BT_STATE(s) == conn_state_closed && xv_errno == EPIPE) : BT_EV_MAP_AFTER(s, XCM_SO_SENDABLE, xv_ssl_errno)) && \
+        (BT_STATE(s) == conn_state_ready ==> xv_errno == EAGAIN) && (BT_STATE(s) == conn_state_closed ==> xv_errno == EPIPE) && \
+        (BT_STATE(s) == conn_state_bad ==> xv_errno == BT(s)->conn.badness_reason)))
+/* PO[C02] btls_send.counters: bytes are counted (accepted from the application, handed to the lower layer) exactly when and as accepted */
+__CPROVER_ensures(__CPROVER_return_value >= 1 \
+        ? (BCN(s, from_app_bytes) == __CPROVER_old(BCN(s, from_app_bytes)) + __CPROVER_return_value && BCN(s, to_lower_bytes) == __CPROVER_old(BCN(s, to_lower_bytes)) + __CPROVER_return_value) \
+        : (BT_SAME(s, from_app_bytes) && BT_SAME(s, to_lower_bytes)))
+__CPROVER_ensures(BT_CONN_INV(s))
+;
+
+static int btls_receive(struct xcm_socket *__restrict s, void *__restrict buf, size_t capacity)
+__CPROVER_requires(BT_CONN(s) && BT_CAP_OK(capacity))
+__CPROVER_requires(BT_PROTO(s) && BT_CONN_INV(s) && BT_CNT_RANGE(s) && XV_SSL_GHOST_RANGE && BT_GHOST_RANGE)
+__CPROVER_requires(__CPROVER_is_fresh(buf, BT_BUFSZ(capacity)))
+/* ghost constant: the byte the caller's buffer holds at the arbitrary offset xv_j */
+__CPROVER_requires((xv_j >= 0 && (size_t)xv_j < capacity) ==> BT_U8(buf)[xv_j] == xv_g_rb_j)
+__CPROVER_assigns(xv_errno, xv_rx_off, xv_rx_eof, XV_SSL_HS_ASSIGNS, XV_SSL_VERDICT_ASSIGNS, XV_SSL_READ_ASSIGNS)
+__CPROVER_assigns(BT_STATE(s), BT(s)->conn.badness_reason, BT(s)->conn.ssl_condition, BT(s)->conn.ssl_wants)
+__CPROVER_assigns(BCN(s, to_app_bytes), BCN(s, from_lower_bytes), BCN(s, to_app_msgs), BCN(s, from_lower_msgs))
+__CPROVER_assigns(capacity > 0: __CPROVER_object_upto(buf, capacity))
+/* PO[C02] btls_receive.never_more_than_capacity */
+__CPROVER_ensures(__CPROVER_return_value >= -1 && (__CPROVER_return_value >= 0 ==> (size_t)__CPROVER_return_value <= capacity))
+/* PO[C09,C02] btls_receive.data_only_when_ready: SSL_read is entered at most once, ONLY in state ready (verdict satisfied the policy), on the socket's own SSL, with exactly (buf, capacity) */
+__CPROVER_ensures(xv_sr_calls != __CPROVER_old(xv_sr_calls) ==> (xv_sr_calls == __CPROVER_old(xv_sr_calls) + 1 && BT_WAS_READY_FOR_DATA(s) && xv_ssl_hs_done && BT_VERDICT_OK(s) && \
+                                                                 xv_sr_ssl == BT(s)->conn.ssl && xv_sr_buf == buf && xv_sr_num >= 0 && (size_t)xv_sr_num == capacity))
+/* PO[C09] btls_receive.no_data_unless_read: unless SSL_read was entered the caller's buffer is untouched */
+__CPROVER_ensures((xv_sr_calls == __CPROVER_old(xv_sr_calls) && xv_j >= 0 && (size_t)xv_j < capacity) ==> BT_U8(buf)[xv_j] == xv_g_rb_j)
+/* PO[C06] btls_receive.bad_sticks */
+__CPROVER_ensures(BT_OLD_STATE(s) == conn_state_bad ==> (__CPROVER_return_value == -1 && xv_errno == __CPROVER_old(BT(s)->conn.badness_reason) && BT_STATE(s) == conn_state_bad && \
+                                                         BT(s)->conn.badness_reason == __CPROVER_old(BT(s)->conn.badness_reason) && BT_SSL_UNTOUCHED))
+/* PO[C06] btls_receive.closed_keeps_returning_zero */
+__CPROVER_ensures(BT_OLD_STATE(s) == conn_state_closed ==> (__CPROVER_return_value == 0 && BT_STATE(s) == conn_state_closed && BT_SSL_UNTOUCHED))
+/* PO[C06] btls_receive.discovering_call_reports: the call whose handshake step discovers the failure reports it: bad => the stored errno, closed => 0 */
+__CPROVER_ensures((BT_HS_ENTERED && BT_DEAD_STATE(s)) ==> (BT_STATE(s) == conn_state_bad ? (__CPROVER_return_value == -1 && xv_errno == BT(s)->conn.badness_reason) : __CPROVER_return_value == 0))
+/* PO[C09] btls_receive.not_ready_is_eagain */
+__CPROVER_ensures((BT_STATE(s) != conn_state_ready && !BT_DEAD_STATE(s)) ==> (__CPROVER_return_value == -1 && xv_errno == EAGAIN && xv_sr_calls == __CPROVER_old(xv_sr_calls)))
+/* PO[C02,C06] btls_receive.stream: the lower-layer receive contract: rv >= 1: buf[0..rv) are the next rv bytes of the plaintext stream; 0: the socket is closed; -1: nothing consumed, errno > 0, anything but EAGAIN means terminal */
+__CPROVER_ensures(BT_LOWER_RECV_ENSURES(s, __CPROVER_return_value, buf, capacity))
+/* PO[C06] btls_receive.eof_honest: 0 is reported only when the peer's close has been seen (close_notify, or EOF/EPIPE from the transport) -- in this call or earlier */
+__CPROVER_ensures(__CPROVER_return_value == 0 ==> (BT_OLD_STATE(s) == conn_state_closed || xv_ssl_close_seen))
+/* PO[C02] btls_receive.rv_is_openssl_count */
+__CPROVER_ensures(__CPROVER_return_value >= 1 ==> (xv_sr_calls == __CPROVER_old(xv_sr_calls) + 1 && __CPROVER_return_value == xv_sr_ret))
+/* PO[C06] btls_receive.failure_mapping: a refused SSL_read: WANT_* => EAGAIN; close_notify / EOF / EPIPE => closed, 0; protocol error => bad, EPROTO; transport errno e => bad, e */
+__CPROVER_ensures((xv_sr_calls != __CPROVER_old(xv_sr_calls) && xv_sr_ret <= 0) ==> (BT_EV_MAP_AFTER(s, XCM_SO_RECEIVABLE, xv_ssl_errno) && \
+        (BT_STATE(s) == conn_state_ready ==> (__CPROVER_return_value == -1 && xv_errno == EAGAIN)) && (BT_STATE(s) == conn_state_closed ==> __CPROVER_return_value == 0) && \
+        (BT_STATE(s) == conn_state_bad ==> (__CPROVER_return_value == -1 && xv_errno == BT(s)->conn.badness_reason))))
+/* PO[C02] btls_receive.counters: bytes are counted (taken from the lower layer, delivered to the application) exactly when and as delivered */
+__CPROVER_ensures(__CPROVER_return_value >= 1 \
+        ? (BCN(s, to_app_bytes) == __CPROVER_old(BCN(s, to_app_bytes)) + __CPROVER_return_value && BCN(s, from_lower_bytes) == __CPROVER_old(BCN(s, from_lower_bytes)) + __CPROVER_return_value) \
+        : (BT_SAME(s, to_app_bytes) && BT_SAME(s, from_lower_bytes) && BT_SAME(s, to_app_msgs) && BT_SAME(s, from_lower_msgs)))
+__CPROVER_ensures(BT_CONN_INV(s))
 ;
 
 #include "contracts/end.h"
